@@ -139,6 +139,13 @@ class StlAstParserVisitor(LtlAstParserVisitor, StlParserVisitor):
     def visitInterval(self, ctx):
         begin, begin_unit = self.visit(ctx.intervalTime(0))
         end, end_unit = self.visit(ctx.intervalTime(1))
+
+        # both bounds as durations (same unit resolution as the interpreters)
+        b_unit = begin_unit if begin_unit else (end_unit if end_unit else self.unit)
+        e_unit = end_unit if end_unit else b_unit
+        if begin * self.U[b_unit] > end * self.U[e_unit]:
+            raise RTAMTException('The lower bound of the interval [{0}{1},{2}{3}] exceeds its upper bound'.format(begin, begin_unit, end, end_unit))
+
         interval = Interval(begin, end, begin_unit, end_unit)
         return interval
 
